@@ -441,6 +441,10 @@ class TileCreator(object):
                     source.as_buffer(self.tile_mgr.image_opts)
                 source.image_opts = self.tile_mgr.image_opts
                 tile.source = source
+                # timestamp and size of a stale tile that was loaded from the cache
+                # describe the replaced image, not this source
+                tile.timestamp = None
+                tile.size = None
                 tile.cacheable = source.cacheable
                 tile = self.tile_mgr.apply_tile_filter(tile)
                 if source.cacheable:
